@@ -58,6 +58,21 @@ fn num(d: Decimal) -> Num {
 /// default affiliate of that many shares for that total cost, dated 40 days before the first row.
 pub fn opening_pairs(case: &Case) -> Vec<Value> {
     let mut out = Vec::new();
+    // securities WITHOUT an opening position: an opening position given for some other security
+    // must change nothing
+    let secs: std::collections::BTreeSet<String> = case.files.iter().flatten().map(|r| r.sec.clone()).collect();
+    for sec in secs.iter().filter(|s| !case.opening.contains_key(*s)) {
+        let rows = sorted_single_file(case, sec);
+        let a_case = Case { id: format!("{}/n", case.id), files: vec![rows.clone()], opening: Default::default(), tags: case.tags.clone() };
+        let mut b_case = a_case.clone();
+        b_case.id = format!("{}/o", case.id);
+        b_case.opening.insert("OTHER.SEC".into(), (Num::S("17".into()), Num::S("1234.5".into())));
+        let sa = ledger_segments(&a_case);
+        let sb = ledger_segments(&b_case);
+        if let (Some(a), Some(b)) = (seg_for(&sa, sec), seg_for(&sb, sec)) {
+            out.push(json!({"id": case.id, "kind": "same", "cls": "opening", "a": a, "b": b, "k": 0, "post": dzero(), "pre": dzero(), "perAff": false}));
+        }
+    }
     for (sec, (n, c)) in &case.opening {
         let rows = sorted_single_file(case, sec);
         if rows.is_empty() || n.dec().map(|d| d.is_zero()).unwrap_or(true) {
